@@ -355,6 +355,8 @@ func codecCase(rep *Report, s *glue.Subject, d MD, idx int) {
 		marshalOK = false
 	} else if !bytes.Equal(detB, exp) {
 		rep.Violate("C02", "codec/det-bytes", tn, "deterministic bytes differ from reference (dynamicpb = spec encoder): "+firstDiff(detB, exp), rc)
+	} else if ab, aerr := detOpts.MarshalAppend([]byte("prefix"), S); aerr != nil || !bytes.Equal(ab, append([]byte("prefix"), exp...)) {
+		rep.Violate("C02", "codec/det-bytes/append", tn, fmt.Sprintf("deterministic MarshalAppend onto a non-empty buffer is not the buffer followed by the reference bytes (err=%v): %s", aerr, firstDiff(ab, append([]byte("prefix"), exp...))), rc)
 	}
 
 	// --- C01: both modes round trip
